@@ -34,6 +34,18 @@ def exact():
     return list(E.EXACT_CONTRACTS)
 
 
+def cg16(level):
+    from contracts import exact as E
+    if level == "thorough":
+        return list(E.CG16_CONTRACTS)
+    return [("contracts.exact", n) for n in ("cg16_difference_0000", "cg16_difference_1111", "cg16_minmax_0110", "cg16_maxmin_0100", "cg16_minmax_1010")]
+
+
+def heur():
+    from contracts import exact as E
+    return list(E.HEUR_CONTRACTS)
+
+
 def c11():
     from contracts import exact as E
     return list(E.C11_CONTRACTS)
